@@ -1,6 +1,7 @@
 """C12 — incremental token expansion follows left-to-right incremental semantics (structural clauses)."""
 import ast
 
+from ..core import generic as G
 from ..core import astutil as A
 from ..core.model import dotted
 
@@ -172,8 +173,33 @@ def run(ctx):
                           f"{cls}.pull_data hands `{A.unparse(v)}` itself to the in-place expander: the stored defaults are modified by one query and change the answer of the next", node=st)
         rets = A.returns(pd.node)
         ctx.check("R5", pd, all(isinstance(r.value, ast.Name) and r.value.id in targets for r in rets), "returns-expanded", "pull_data returns the expanded copy")
-    ctx.floor("R5", 3)
+    ctx.floor("R5", 2)
 
+    # ---- R6 expansion writes only to its accumulator; lookups are read-only ------------------------------------------
+    G.pure(ctx, "R6", [(MOD, q, (), "a lookup that edits the stored tables changes what the next package gets") for q in (
+        "collapsed_restrict_to_data.pull_data", "collapsed_restrict_to_data.iter_pull_data", "non_incremental_collapsed_restrict_to_data.pull_data",
+        "non_incremental_collapsed_restrict_to_data.iter_pull_data", "ChunkedDataDict.render_pkg", "ChunkedDataDict.render_to_dict",
+        "ChunkedDataDict.render_to_payload", "PayloadDict.render_pkg", "_build_cp_atom_payload", "optimize_incrementals", "incremental_expansion_license") if P.func_opt(MOD, q)]
+    + [(MOD, q, ("param:orig",), "orig= is the documented accumulator; nothing else may be written") for q in ("incremental_expansion", "incremental_chunked")])
+    ctx.floor("R6", 8)
+
+    # ---- R7 accumulator contract of the expander; finalized defaults only ever seed an empty accumulator -----------
+    G.accumulator_guard(ctx, "R7", MOD, "incremental_expansion", "orig")
+    for cls in ("collapsed_restrict_to_data",):
+        for meth in ("pull_data", "iter_pull_data"):
+            fi = P.func_opt(MOD, f"{cls}.{meth}")
+            if fi is None:
+                continue
+            uses = [n for n in A.body_walk(fi.node) if isinstance(n, ast.Attribute) and n.attr == "defaults_finalized" and isinstance(n.ctx, ast.Load)]
+            for u in uses:
+                par = getattr(u, "_parent", None)
+                seeds = isinstance(par, ast.Call) and par.args and par.args[0] is u and dotted(par.func) in ("set", "frozenset", "list", "iter", "tuple") \
+                    or isinstance(par, (ast.Return, ast.Assign, ast.IfExp, ast.Yield, ast.YieldFrom, ast.For, ast.comprehension))
+                ctx.check("R7", fi, seeds, f"finalized-only-seeds:{meth}",
+                          f"{cls}.{meth}: the finalized defaults start an accumulator (copied / returned / iterated), they are not merged into one",
+                          f"{cls}.{meth} merges the *finalized* defaults (`{A.unparse(par)[:70]}`) into an accumulator that already holds tokens: negations "
+                          f"recorded in the stored defaults are not replayed over those earlier tokens (left-to-right stacking is lost)", node=u)
+    ctx.floor("R7", 3)
 
 MUTANTS = [
     {"name": "license-neg-group-guard-dropped", "file": "src/pkgcore/ebuild/misc.py", "old": "                    i = i[1:]\n                    if not i:\n                        raise ValueError(\n                            f\"{pkg}: {msg_prefix}encountered an incomplete negation\"\n                            \" of a license group, '-@'\"\n                        )\n", "new": "                    i = i[1:]\n", "rule": "R1"},
